@@ -1067,7 +1067,7 @@ def pytest_configure(config):  # pragma: no cover  (runs inside the pytest subpr
             setattr(tsdate, name, w)
 
 
-def run_suite(ctx, test_args, timeout=1500):
+def run_suite(ctx, test_args, timeout=5400):
     """Run (part of) the repository's test-suite under the recorder; return the recorded events."""
     import subprocess
 
